@@ -86,7 +86,8 @@ def viaCode : String → Option Nat
 
 /-- corpus layout (harness/c02/targets.go): 0–6 functions (5 generic at int), 7–9 methods of T, 10–11 function literals,
     12–16 methods of L, 17 method M7 of the namesake type T of the second package, 18 the generic instantiated at int64,
-    19 the unexported namesake u4 of the second package (reachable through `b.Pkg(path).ExportFunc("u4")`, via p, only) -/
+    19 the unexported namesake u4 of the second package (reachable through `b.Pkg(path).ExportFunc("u4")`, via p, only),
+    20 a function whose loop head lies in its first 13 bytes (relocation into a placeholder is refused by an error return) -/
 def isTMethod (t : Nat) : Bool := t ≥ 7 && t ≤ 9
 def isLMethod (t : Nat) : Bool := t ≥ 12 && t ≤ 16
 def isSMethod (t : Nat) : Bool := t == 17
